@@ -307,20 +307,23 @@ class DiskFile(VirtualFileContainer):
                 preamble.read(self.buffer, self.seek_granule(starting_granule.int))
 
                 data_length = preamble.data_length.int
-                if data_length == 0:
+                if not preamble.data_length.is_numeric():
+                    # No length stored in the file itself: use the directory and allocation table
                     data_length = self.calculate_file_length(starting_granule.int, fat, bytes_in_last_sector.int)
 
+                # The postamble follows the data along the granule chain, so read it through the chain
+                postamble = Postamble() if preamble.is_ml() else None
                 file_data, post_pointer = self.read_data(
                     starting_granule.int,
                     fat,
                     preamble=preamble,
-                    data_length=data_length,
+                    data_length=data_length + (postamble.length if postamble else 0),
                 )
 
-                if preamble.is_ml():
-                    postamble = Postamble()
-                    postamble.read(self.buffer, post_pointer)
+                if postamble:
+                    postamble.read(file_data, data_length)
                     exec_addr = postamble.exec_addr
+                    file_data = file_data[:data_length]
 
                 coco_file = CoCoFile(
                     name=name,
@@ -522,7 +525,7 @@ class DiskFile(VirtualFileContainer):
         file_data = []
         chunk_size = DiskConstants.HALF_TRACK_LEN
 
-        if len(self.buffer[pointer:]) < data_length:
+        if len(self.buffer[pointer:]) < min(data_length, chunk_size):
             raise VirtualFileValidationError("Unable to read data - insufficient bytes in buffer")
 
         # Skip over preamble if it exists
